@@ -211,7 +211,7 @@ def mc_notation(run, tier):
                                 "Inv_UciRoundTrip", "Inv_FenRoundTrip", "Inv_Valid"]}
 
 
-def mc_famimpl(run, tier, seed, fams, module="MC_FamImpl", mult=(4, 3), what=None):
+def mc_famimpl(run, tier, seed, fams, module="MC_FamImpl", mult=(4, 3), what=None, cfg=None, corpus=None):
     """Engine MC: refinement obligations (prefilter/pin logic, generator, has_legal_moves, make/unmake with
     incremental hash and sets; with module=MC_SanImpl: the SAN writer/reader) on the structured families, at
     the design level."""
@@ -219,7 +219,7 @@ def mc_famimpl(run, tier, seed, fams, module="MC_FamImpl", mult=(4, 3), what=Non
     t0 = time.time()
     def one(f):
         stride = FAM_STRIDE[f][qi] * mult[qi]
-        r = run_tlc(module, module + ".cfg", env={"FAM_" + f: 1, "STRIDE": stride, "SEED": seed, "EPFIX": 1},
+        r = run_tlc(module, cfg or module + ".cfg", env={"FAM_" + f: 1, "STRIDE": stride, "SEED": seed, "EPFIX": 1},
                     workers=max(2, NCPU // len(fams)), xmx="4g", timeout=3400, tag=f"{module}-{run.prop}-{f}", gc_threads=2)
         return f, stride, r
     info = {}
@@ -232,7 +232,17 @@ def mc_famimpl(run, tier, seed, fams, module="MC_FamImpl", mult=(4, 3), what=Non
             run.states += r["distinct"]
             run.transitions += r["generated"]
             info[f] = {"stride": stride, "distinct_states": r["distinct"]}
-    run.extra[module.lower()] = {"families": info,
+    if corpus:
+        # the same obligations on a slice of the curated corpus (ordinary positions: plain pawn captures, castlings)
+        r = run_tlc(module, cfg or module + ".cfg", env={"CORPUS": 1, "FIRST": corpus[0], "LAST": corpus[1], "EPFIX": 1},
+                    workers=4, xmx="4g", timeout=3400, tag=f"{module}-{run.prop}-corpus", gc_threads=2)
+        if "Model checking completed. No error has been found" not in r["out"]:
+            run.tool_error(f"{module}(corpus): the implementation-shaped layer does not refine the reference layer "
+                           f"(to be triaged against the code):\n" + r["out"][-2500:])
+        else:
+            run.states += r["distinct"]
+            info["corpus"] = {"first": corpus[0], "last": corpus[1], "distinct_states": r["distinct"]}
+    run.extra[(cfg or module).replace(".cfg", "").lower()] = {"families": info,
                                  "invariant": what or "Inv_FamRefines (Obl_Legal, Obl_SemiValidate, Obl_Make, Obl_Undo)",
                                  "wall_s": round(time.time() - t0, 1)}
     log(f"[mc] {module} {info} in {time.time() - t0:.1f}s")
@@ -939,7 +949,13 @@ def plan_generic(prop, tier, seed):
         if prop == "C09":
             # the SAN writer/reader as the code does it (SanImpl) against the reference reading, on the families
             mc_famimpl(run, tier, seed, ["AMBIG", "PIN", "EPX", "PROMO", "CASTLE", "DBLCHK"], module="MC_SanImpl",
-                       mult=(12, 8), what="Inv_SanRefines (Obl_SanWrite, Obl_SanRoundTrip, Obl_SanRead)")
+                       mult=(12, 8), what="Inv_SanRefines (Obl_SanWrite, Obl_SanRoundTrip, Obl_SanRead)",
+                       corpus=(1, 24) if tier == "quick" else (1, 122))
+        if prop == "C10":
+            # the UCI readers as the code does them (kind guessed from the board, Move::new, validators) on all
+            # 20 480 (source, destination, promotion) triples of each position
+            mc_famimpl(run, tier, seed, ["EPX", "EPEVADE", "PROMO", "CASTLE", "PIN"], module="MC_SanImpl", cfg="MC_UciImpl.cfg",
+                       mult=(12, 8), what="Inv_UciRefines (Obl_Uci)", corpus=(20, 44) if tier == "quick" else (1, 122))
     if prop in ("C13", "C14", "C17"):
         chain_behaviours(run, prop, tier, seed, binary)
         mc_chain(run, tier)
